@@ -100,7 +100,8 @@ class C07(Prop):
             ref_path = abs(p)
             ref = pl.observe_path(ref_path)
             pred6 = [pl.arc_pred6(s, pl.ARC_TS) if isinstance(s, Arc) else None for s in ref_path]
-            out = {"ref": ref, "pred6": pred6, "opts": {}, "str": str(p)}
+            par6 = [pl.arc_params6(s) if isinstance(s, Arc) else None for s in ref_path]
+            out = {"ref": ref, "pred6": pred6, "par6": par6, "opts": {}, "str": str(p)}
             for r, s in OPTS:
                 ds = p.d(relative=r, smooth=s)
                 out["opts"]["%s%s" % (opt_s(r), opt_s(s))] = {"d": ds, "re": pl.observe_path(Path(ds))}
@@ -115,7 +116,8 @@ class C07(Prop):
                         re_ = None          # e.g. a window that starts with a smooth command and has no move of its own
                     subs.append({"d": sp.d(), "re": re_, "win": pl.observe_path(wsegs),
                                  "own_move": bool(wsegs) and type(wsegs[0]).__name__ == "Move",
-                                 "pred6": [pl.arc_pred6(s, pl.ARC_TS) if isinstance(s, Arc) else None for s in wsegs]})
+                                 "pred6": [pl.arc_pred6(s, pl.ARC_TS) if isinstance(s, Arc) else None for s in wsegs],
+                                 "par6": [pl.arc_params6(s) if isinstance(s, Arc) else None for s in wsegs]})
             out["subs"] = subs
             return out
         except Exception as e:
@@ -169,7 +171,7 @@ class C07(Prop):
                 m = max(m, abs(q[0]), abs(q[1]))
         return m
 
-    def _roundtrip(self, got, ref, pred6, scale, what, case, skip_first_start=False):
+    def _roundtrip(self, got, ref, pred6, scale, what, case, skip_first_start=False, par6=None):
         fs = []
         n = len(ref)
         if len(got) != n:
@@ -201,6 +203,15 @@ class C07(Prop):
                         dev6 = max(math.hypot(a[0] - b[0], a[1] - b[1]) for a, b in zip(g["pts"], p6))
                         if dev6 <= 1e-7 * scale + 1e-2 * dev:
                             f["finding"] = FINDING          # exactly the deviation 6-digit radii/rotation predict
+                    p6 = par6[i] if par6 and i < len(par6) else None
+                    if "finding" not in f and p6 is not None and g.get("start") and g.get("end"):
+                        # near-half-turn thin arcs: the centre construction amplifies the 12-digit rounding of the
+                        # printed endpoints (already within the bound above) as well; predict from the endpoints as
+                        # re-read and the 6-digit parameters of the stored arc
+                        pts = pl.arc_pred_from(p6, g["start"], g["end"], pl.ARC_TS)
+                        dev6 = max(math.hypot(a[0] - b[0], a[1] - b[1]) for a, b in zip(g["pts"], pts))
+                        if dev6 <= 1e-7 * scale + 1e-2 * dev:
+                            f["finding"] = FINDING
                     fs.append(f)
                     return fs
         return fs
@@ -211,7 +222,8 @@ class C07(Prop):
         fs = []
         scale = self._scale(obs["ref"])
         for key, o in obs["opts"].items():
-            fs += self._roundtrip(o["re"], obs["ref"], obs["pred6"], scale, "d(relative=%s, smooth=%s)" % (key[0], key[1]), case)
+            fs += self._roundtrip(o["re"], obs["ref"], obs["pred6"], scale, "d(relative=%s, smooth=%s)" % (key[0], key[1]), case,
+                                  par6=obs.get("par6"))
             if len(fs) > 3:
                 break
         if obs["str"] != obs["opts"]["--"]["d"]:
@@ -222,7 +234,8 @@ class C07(Prop):
             if sb["re"] is None:
                 sub_fs = [Failure(what="Subpath(%d).d() cannot be re-parsed (ValueError)" % i, case=case)]
             else:
-                sub_fs = self._roundtrip(sb["re"], sb["win"], sb["pred6"], scale, "Subpath(%d).d()" % i, case, skip_first_start=True)
+                sub_fs = self._roundtrip(sb["re"], sb["win"], sb["pred6"], scale, "Subpath(%d).d()" % i, case, skip_first_start=True,
+                                         par6=sb.get("par6"))
             if not sb["own_move"]:
                 for f in sub_fs:
                     f.setdefault("finding", FINDING_SUB)
